@@ -6,6 +6,8 @@ import GeosModel.Base.GTree
 import GeosModel.Model.Simplify.DP
 import GeosModel.Model.Simplify.Dist
 import GeosModel.Model.Simplify.Contracts
+import GeosModel.Model.Simplify.VertexIndex
+import GeosModel.Model.Simplify.Jump
 /-!
 Driver for C18 (`drv_c18 <stream>`):
 * `dp`       — runs the Douglas–Peucker model instantiated with hardware doubles (`Float`) and the formula of
@@ -437,10 +439,103 @@ def covLine (line : String) : String :=
     | _, _ => "bad-line"
   | _ => "bad-line"
 
+/-! ### direct streams: `ComponentJumpChecker::hasJump`, `VertexSequencePackedRtree` -/
+
+def takeHex : Nat → List String → Option (List UInt64 × List String)
+  | 0, r => some ([], r)
+  | n + 1, x :: r => do
+    let u ← Driver.parseHex64 x
+    let (us, r) ← takeHex n r
+    some (u :: us, r)
+  | _, _ => none
+
+/-- `k` components `xy n x y …` → their bit patterns -/
+def takeComps : Nat → List String → Option (List (List UInt64) × List String)
+  | 0, r => some ([], r)
+  | k + 1, "xy" :: n :: r => do
+    let (us, r) ← takeHex (2 * (← n.toNat?)) r
+    let (cs, r) ← takeComps k r
+    some (us :: cs, r)
+  | _, _ => none
+
+def pairUp : List Int → List Pt
+  | x :: y :: r => ⟨x, y⟩ :: pairUp r
+  | _ => []
+
+/-- `J s self start end seg(4) k comps…` / `J e self seg1(4) seg2(4) seg(4) k comps…` → `0` / `1` -/
+def jumpLine (line : String) : String :=
+  match Driver.tokens line with
+  | "J" :: var :: selfS :: rest =>
+    let r : Option String := do
+      let self ← selfS.toNat?
+      let (start, stop, rest) ← (if var == "s" then
+          match rest with
+          | a :: b :: r => do some ((← a.toNat?), (← b.toNat?), r)
+          | _ => none
+        else some (0, 0, rest))
+      let nseg := if var == "s" then 4 else 12
+      let (segBits, rest) ← takeHex nseg rest
+      match rest with
+      | k :: rest =>
+        let (comps, _) ← takeComps (← k.toNat?) rest
+        -- all ordinates over one common power of two
+        let (_, ints) ← F64.scaleAll (segBits ++ comps.flatMap id)
+        let segPts := pairUp (ints.take nseg)
+        let compPts := regroup (comps.map (·.length / 2)) (pairUp (ints.drop nseg))
+        -- the component point of an unsimplified TaggedLineString is its vertex 1
+        let cps := (List.range compPts.length).zip (compPts.map fun c => c.getD 1 ⟨0, 0⟩)
+        let lineP := compPts.getD self []
+        if var == "s" then
+          match segPts with
+          | [a, b] => some (if Jump.hasJumpSection cps self lineP start stop (a, b) then "1" else "0")
+          | _ => none
+        else
+          match segPts with
+          | [a, b, c, d, e, f] => some (if Jump.hasJumpSegs cps self (a, b) (c, d) (e, f) then "1" else "0")
+          | _ => none
+      | _ => none
+    r.getD "bad-line"
+  | _ => "bad-line"
+
+def showEnv : Env → String
+  | none => "-"
+  | some b => s!"{b.minx},{b.maxx},{b.miny},{b.maxy}"
+
+/-- the operations `r i` / `q minx maxx miny maxy` in turn; collects the query answers -/
+def vsOps : Nat → List String → VSPR.Tree → List String → Option (VSPR.Tree × List String)
+  | 0, _, t, acc => some (t, acc.reverse)
+  | n + 1, "r" :: i :: r, t, acc => do vsOps n r (VSPR.remove t (← i.toNat?)) acc
+  | n + 1, "q" :: a :: b :: c :: d :: r, t, acc => do
+    let q : Env := some ⟨F64.key (← Driver.parseHex64 a), F64.key (← Driver.parseHex64 b), F64.key (← Driver.parseHex64 c), F64.key (← Driver.parseHex64 d)⟩
+    let res := VSPR.query t q
+    vsOps n r t (("q" ++ String.join (res.map fun i => " " ++ toString i) ++ ";") :: acc)
+  | _, _, _, _ => none
+
+/-- `V n pts… nops ops…` → the query answers and the final `bounds` array -/
+def vsIndexLine (line : String) : String :=
+  match Driver.tokens line with
+  | "V" :: n :: rest =>
+    let r : Option String := do
+      let (us, rest) ← takeHex (2 * (← n.toNat?)) rest
+      let rec mk : List UInt64 → List (Int × Int)
+        | x :: y :: r => (F64.key x, F64.key y) :: mk r
+        | _ => []
+      match rest with
+      | k :: rest =>
+        let t0 := VSPR.build (mk us)
+        -- checked assumption of the theorems of Props/C18Index.lean: the tree as built is well-formed
+        if !VSPR.wfCheck t0 then some "MODEL-TREE-NOT-WELL-FORMED" else
+        let (t, answers) ← vsOps (← k.toNat?) rest t0 []
+        some (String.join answers ++ "b" ++ String.join (t.bounds.map fun e => " " ++ showEnv e))
+      | _ => none
+    r.getD "bad-line"
+  | _ => "bad-line"
+
 end Driver.C18
 
 def handlers : List (String × (String → String)) :=
-  [("dp", Driver.C18.dpLine), ("dpgate", Driver.C18.dpLineG true), ("dporacle", Driver.C18.dpOracle), ("tps", Driver.C18.tpsLine), ("hull", Driver.C18.hullLine), ("coverage", Driver.C18.covLine)]
+  [("dp", Driver.C18.dpLine), ("dpgate", Driver.C18.dpLineG true), ("dporacle", Driver.C18.dpOracle), ("tps", Driver.C18.tpsLine), ("hull", Driver.C18.hullLine), ("coverage", Driver.C18.covLine),
+   ("jump", Driver.C18.jumpLine), ("vsindex", Driver.C18.vsIndexLine)]
 
 def main (args : List String) : IO UInt32 := do
   match args with
